@@ -478,9 +478,118 @@ def check_none_defaults(chk, repo):
     chk.need('R09.4', n, 2, 'uses of None-defaulted tables')
 
 
+def exception_arity(chk, repo, rule, rels, minimum=20):
+    """Every construction of an exception class of pgradd/Error.py that
+    defines its own __init__ passes a number of positional arguments the
+    signature accepts (a message split by a comma instead of concatenated
+    is a TypeError at the moment the error should be raised)."""
+    sigs = {}
+    for c in repo.mod(ERR).tree.body:
+        if isinstance(c, ast.ClassDef):
+            init = [s_ for s_ in c.body if isinstance(s_, ast.FunctionDef)
+                    and s_.name == '__init__']
+            if init:
+                a = init[0].args
+                npos = len(a.args) - 1
+                nreq = npos - len(a.defaults)
+                sigs[c.name] = (nreq, None if a.vararg else npos)
+            else:
+                sigs[c.name] = (0, None)    # Exception(*args)
+    n = 0
+    for rel in rels:
+        for node in ast.walk(repo.mod(rel).tree):
+            if isinstance(node, ast.Call) and isinstance(
+                    node.func, ast.Name) and node.func.id in sigs \
+                    and not any(isinstance(a, ast.Starred)
+                                for a in node.args):
+                n += 1
+                lo, hi = sigs[node.func.id]
+                k = len(node.args) + len(node.keywords)
+                ok = k >= lo and (hi is None or k <= hi)
+                fn = node
+                while fn is not None and not isinstance(fn, ast.FunctionDef):
+                    fn = getattr(fn, '_parent', None)
+                q = (fn._parent.name + '.' + fn.name) if fn is not None and \
+                    isinstance(fn._parent, ast.ClassDef) else (
+                    fn.name if fn else '<module>')
+                if not ok:
+                    chk.ob(rule, False, rel, node,
+                           key='exception-arity:%s:%s:%s' % (
+                               q, node.func.id, src(node.args[0])[:40]
+                               if node.args else ''), qualname=q,
+                           what='%s(...) is built with %d arguments but its '
+                                '__init__ takes %s: TypeError instead of '
+                                'the intended error' % (
+                                    node.func.id, k,
+                                    lo if hi == lo else '%s..%s' % (lo, hi)),
+                           found=src(node)[:120])
+    chk.ob(rule, True, ERR, None, key='exception-arity-scan',
+           qualname='<package>',
+           what='%d constructions of Error.py exception classes scanned in '
+                '%d modules' % (n, len(rels)))
+    chk.need(rule, n, minimum, 'exception constructions')
+
+
+def check_addbond(chk, repo):
+    """RWMol.AddBond raises RuntimeError for a self-bond or an existing
+    bond.  A caller of ReadBondTypeBondedAtom either passes an atom it has
+    just added (fresh index) or guards/handles that."""
+    cls = repo.cls(MQR, 'MolQueryReader')
+    n = 0
+    for fn in cls.body:
+        if not isinstance(fn, ast.FunctionDef):
+            continue
+        for c in ast.walk(fn):
+            if isinstance(c, ast.Call) and dotted(c.func) == \
+                    'self.ReadBondTypeBondedAtom' and len(c.args) >= 2:
+                n += 1
+                fresh = False
+                for a in c.args[:2]:
+                    if isinstance(a, ast.Name):
+                        for asg in ast.walk(fn):
+                            if isinstance(asg, ast.Assign) and any(
+                                    isinstance(t, ast.Name) and t.id == a.id
+                                    for t in asg.targets) and isinstance(
+                                    asg.value, ast.Call) and isinstance(
+                                    asg.value.func, ast.Attribute) and \
+                                    asg.value.func.attr == 'AddAtom':
+                                fresh = True
+                guarded = False
+                i1, i2 = src(c.args[0]), src(c.args[1])
+                for t in ast.walk(fn):
+                    if isinstance(t, ast.If) and t.lineno < c.lineno \
+                            and t.body and isinstance(t.body[-1], ast.Raise):
+                        tt = src(t.test).replace(' ', '')
+                        if ('%s==%s' % (i1, i2) in tt or '%s==%s' % (
+                                i2, i1) in tt) and 'GetBondBetweenAtoms' in tt:
+                            guarded = True
+                p = c
+                while p is not None and p is not fn:
+                    par = getattr(p, '_parent', None)
+                    if isinstance(par, ast.Try) and p in par.body and any(
+                            shapes._catches(shapes._handler_names(h),
+                                            'RuntimeError') and h.body
+                            and isinstance(h.body[-1], ast.Raise)
+                            for h in par.handlers):
+                        guarded = True
+                    p = par
+                chk.ob('R09.4', fresh or guarded, MQR, c,
+                       key='addbond-precondition:' + fn.name,
+                       qualname='MolQueryReader.' + fn.name,
+                       what='%s adds a bond between two declared labels: a '
+                            'self-bond or an already existing bond (RDKit '
+                            'RuntimeError) is rejected as a RING reader '
+                            'error first' % fn.name
+                       if not fresh else
+                       '%s bonds an atom it has just added' % fn.name)
+    chk.need('R09.4', n, 2, 'bond-adding call sites')
+
+
 def run(chk, repo, tier):
     strict, enhanced = check_grammar(chk, repo)
     check_none_defaults(chk, repo)
+    exception_arity(chk, repo, 'R09.4', [PARSER, READER, MQR, RQR])
+    check_addbond(chk, repo)
     check_scanner_loops(chk, repo)
     check_refs(chk, repo)
     check_implicit_raisers(chk, repo)
